@@ -206,7 +206,7 @@ def _regen_eject(out, repo):
         os.path.join(repo, ITER), 'MoleculeIterator.__iter__', ['self.check_ejection_iter', 'self.check_eject_every'],
         {'self.check_eject_every is not None': 'has_every', 'self.check_ejection_iter': 'ctr',
          'self.check_eject_every': 'every'},
-        'eject_due', '(has_every : bool) (ctr every : Z)', repo_rel=ITER)
+        'eject_due', '(has_every : bool) (ctr every : Z)', repo_rel=ITER, must_use=('ctr', 'every'))
     chunks.append(t); meta.append(m)
     t, m = translate_guard_chain(
         os.path.join(repo, MOL), 'Molecule.can_be_yielded',
@@ -312,9 +312,21 @@ def canon_mol(m, absf):
     return [ids] + [int(x) for x in m[1:6]] + [[ord(c) for c in umi] if isinstance(umi, str) else list(umi)]
 
 
+def canon_out(steps, flush, ok, absf):
+    """the statement is about which molecules are yielded (and, for the safety clause, after which read): the order of the
+    molecules yielded together after one read / in the final flush is not constrained and is compared as a sorted list"""
+    return [[sorted(canon_mol(m, absf) for m in st) for st in steps], sorted(canon_mol(m, absf) for m in flush), ok]
+
+
 def canon_run(run, absf):
-    return [[[canon_mol(m, absf) for m in st] for st in run['steps']], [canon_mol(m, absf) for m in run['flush']],
-            1 if run['ok'] else 0]
+    return canon_out(run['steps'], run['flush'], 1 if run['ok'] else 0, absf)
+
+
+def canon_state(st, pooling):
+    """buffer left behind by an abandoned pass: hash groups that hold no molecule are not state"""
+    if pooling == 0:
+        return st
+    return [[g for g in st[0] if g[1]], st[1]] if isinstance(st, list) and len(st) == 2 and isinstance(st[0], list) else st
 
 
 class Prop(fw.PropBase):
@@ -753,7 +765,7 @@ class Prop(fw.PropBase):
         for i, (a, b) in enumerate(zip(mout, impl_out)):
             ci, cfg = index[i]
             absf = res[ci]['abs']
-            a = [[[canon_mol(m, absf) for m in st] for st in a[0]], [canon_mol(m, absf) for m in a[1]], a[2]]
+            a = canon_out(a[0], a[1], a[2], absf)
             if a != b:
                 dis.append({'case': ci, 'cfg': cfg, 'frags': cases[ci]['frags'], 'cls': cases[ci]['cls'],
                             'model': a, 'impl': b, 'impl_error': res[ci]['runs'][case_cfg_index(cases[ci], cfg)]['error']})
@@ -770,19 +782,29 @@ class Prop(fw.PropBase):
                 hexp.append([rec['states'], canon_run(rec['final'], absf)])
                 hidx.append((ci, h))
         hout = fw.run_model('C07', 4, hin) if hin else []
-        n_dirty = 0
+        n_dirty = n_state_diff = 0
         for (ci, h), m, e in zip(hidx, hout, hexp):
             absf = res[ci]['abs']
-            mst = m[0]
-            if h['cfg']['pooling'] == 0:
-                mst = [[[mol for g in st[0] for mol in g[1]], st[1]] for st in mst]
-            mrun = [[[canon_mol(x, absf) for x in st] for st in m[1][0]], [canon_mol(x, absf) for x in m[1][1]], m[1][2]]
+            # buffers left by the abandoned passes: compared as the multiset of buffered molecules + the ejection counter
+            # (grouping / empty groups / order inside the buffer are representation, not behaviour); skipped when the
+            # implementation no longer exposes them
+            mst = [[sorted(mol for g in st[0] for mol in g[1]), st[1]] for st in m[0]]
+            est = [None if st is None else
+                   [sorted(st[0]) if h['cfg']['pooling'] == 0 else sorted(mol for g in st[0] for mol in g[1]), st[1]] for st in e[0]]
+            mst = [a for a, b in zip(mst, est) if b is not None]
+            est = [b for b in est if b is not None]
+            e = [est, e[1]]
+            mrun = canon_out(m[1][0], m[1][1], m[1][2], absf)
             n_dirty += any(st[0] for st in e[0])
-            if mst != e[0] or mrun != e[1]:
+            # what an abandoned pass leaves in the buffers is object state, not behaviour the statement constrains (every
+            # new pass starts by clearing it): recorded for information; the complete pass that follows is compared
+            n_state_diff += (mst != e[0])
+            if mrun != e[1]:
                 dis.append({'case': ci, 'cfg': h['cfg'], 'history_ks': h['ks'], 'frags': cases[ci]['frags'], 'cls': cases[ci]['cls'],
                             'model': [mst, mrun], 'impl': e, 'impl_error': None})
         self.cov['histories_validated_against_impl'] = len(hin)
         self.cov['histories_with_nonempty_buffer_left_by_an_abandoned_pass'] = n_dirty
+        self.cov['info_histories_where_the_left_over_buffer_differs_from_the_model'] = n_state_diff
         mpre = fw.run_model('C07', 1, [p[0] for p in pre_inputs])
         predis = [i for i, (m, p) in enumerate(zip(mpre, pre_inputs)) if m != p[1]]
         self.cov['traces_validated_against_impl'] = len(inputs) + len(hin)
